@@ -271,4 +271,97 @@ def specRun (sd : SD) : List Ev → List Ans
   | .summ s :: es => .summ (lookupIn (summaryTable sd) s) :: specRun sd es
   | .ages :: es => specRun sd es
 
+/-! ### rooting refusals of `collapse_edges_with_less_than_minimum_support` -/
+
+/-- `is_all_counted_trees_rooted`: `True` counted and nothing else -/
+def allRooted (sd : SD) : Bool := sd.rootings.contains true && sd.rootings.length == 1
+/-- `is_all_counted_trees_treated_as_unrooted`: `True` not counted (also when nothing was counted) -/
+def noneRooted (sd : SD) : Bool := !sd.rootings.contains true
+/-- the two `ValueError`s raised before anything is touched: a not-rooted target (`is_rooted` false or `None`) against a
+    distribution of rooted trees, a rooted target against a distribution without any rooted tree -/
+def collapseRefuses (sd : SD) (r : Option Bool) : Bool :=
+  (!(r == some true) && allRooted sd) || ((r == some true) && noneRooted sd)
+/-- the whole call: rooting refusal first, then `collapseBelow` -/
+def collapseCall (sd : SD) (mf : Rat) (r : Option Bool) (t : T) : Option T :=
+  if collapseRefuses sd r then none else collapseBelow sd mf r t
+
+/-! ### `SplitDistributionSummarizer.summarize_splits_on_tree`: what is written on the nodes and edges of a target -/
+
+/-- `set_edge_lengths` (`None` and "keep" both leave the lengths alone) -/
+inductive EdgeMode where
+  | keep | support | clear | meanLen | medianLen
+  deriving DecidableEq, Repr
+
+/-- the settings of ONE summarising call (`configure` resets every setting to its default on every call) -/
+structure SummOpts where
+  pct : Bool := false              -- support_as_percentages
+  label : Bool := false            -- set_support_as_node_label
+  decimals : Nat := 4              -- support_label_decimals
+  mode : EdgeMode := .keep         -- set_edge_lengths
+  minLen : Option Rat := none      -- minimum_edge_length
+
+/-- the integer nearest to `q`, ties to the even one (what `'{:.Nf}'.format` does to the exact value it is given) -/
+def roundHalfEven (q : Rat) : Int :=
+  let f := q.num / (q.den : Int)
+  let r := q.num % (q.den : Int)
+  if 2 * r < (q.den : Int) then f
+  else if 2 * r > (q.den : Int) then f + 1
+  else if f % 2 == 0 then f else f + 1
+
+def padLeft (n : Nat) (s : String) : String := String.ofList (List.replicate (n - s.length) (Char.ofNat 48)) ++ s
+
+/-- `'{:.{places}f}'.format(q, places=d)` of an exactly represented value -/
+def fixedPoint (q : Rat) (d : Nat) : String :=
+  let k := roundHalfEven (q * ((10 : Rat) ^ d))
+  let n := k.natAbs
+  let sign := if k < 0 then "-" else ""
+  if d == 0 then sign ++ toString n
+  else sign ++ toString (n / 10 ^ d) ++ "." ++ padLeft d (toString (n % 10 ^ d))
+
+/-- the final pass over the tree when `minimum_edge_length` is given: a missing length and a shorter one become the minimum -/
+def clampLen (minLen : Option Rat) (l : Option Rat) : Option Rat :=
+  match minLen with
+  | none => l
+  | some m => match l with
+    | none => some m
+    | some x => if x < m then some m else some x
+
+/-- a field of the length summary of split `s`; the no-data value 0 when the split has no summary (`KeyError`) -/
+def summaryField (sd : SD) (s : Int) (f : Stats → Rat) : Rat := ((lookupIn (summaryTable sd) s).map f).getD 0
+
+/-- `edge.length` after the call -/
+def newLength (sd : SD) (o : SummOpts) (s : Int) (sup : Rat) (old : Option Rat) : Option Rat :=
+  match o.mode with
+  | .keep => old
+  | .clear => none
+  | .support => clampLen o.minLen (some sup)
+  | .meanLen => clampLen o.minLen (some (summaryField sd s (·.mean)))
+  | .medianLen => clampLen o.minLen (some (summaryField sd s (·.median)))
+
+/-- what one node of the target carries after the call -/
+structure NodeAnn where
+  id : Nat
+  split : Int
+  support : Rat                       -- node.support (fraction or percentage)
+  label : Option String               -- node.label, written only when requested
+  length : Option Rat                 -- node.edge.length afterwards
+  summary : Option (Option Stats)     -- edge.length_*: not written (empty table) / no-data values / the split's summary
+
+def annotNode (sd : SD) (o : SummOpts) (rooted : Bool) (L : Nat) (nd : T) : NodeAnn :=
+  let s := C01.splitOf rooted L nd.mask
+  let sup := supportOf sd o.pct s
+  { id := nd.id, split := s, support := sup,
+    label := if o.label then some (fixedPoint sup o.decimals) else none,
+    length := newLength sd o s sup (nd.len.map C04.fracToRat),
+    summary := if (summaryTable sd).isEmpty then none else some (lookupIn (summaryTable sd) s) }
+
+/-- the modes that read the length summaries refuse (`ValueError("Edge lengths not available")`) when there are none -/
+def annotRefuses (sd : SD) (o : SummOpts) : Bool :=
+  (o.mode == .meanLen || o.mode == .medianLen) && (summaryTable sd).isEmpty
+
+/-- `summarize_splits_on_tree(tree, **settings)`: the target is encoded with default flags, then every node (pre-order) is decorated -/
+def annotate (sd : SD) (o : SummOpts) (r : Option Bool) (t : T) : Option (List NodeAnn) :=
+  let t2 := C01.encodeTree r true true t
+  if annotRefuses sd o then none else some (t2.nodes.map (annotNode sd o (r == some true) t2.mask))
+
 end DendroModel.C05
